@@ -164,3 +164,54 @@ func StaticCalleeOf(ins ssa.Instruction) *ssa.Function {
 	}
 	return nil
 }
+
+// MapFieldOrigin resolves a map-typed value to the struct field it is loaded
+// from: directly (load of a FieldAddr) or through a repository accessor
+// function all of whose returns are loads of one field of its receiver /
+// first parameter (e.g. `func (g *GlobalNode) writeLocs() map[..]..`).
+func MapFieldOrigin(v ssa.Value) (*types.Named, *types.Var) {
+	return mapFieldOrigin(v, map[ssa.Value]bool{})
+}
+
+func mapFieldOrigin(v ssa.Value, seen map[ssa.Value]bool) (*types.Named, *types.Var) {
+	if seen[v] || len(seen) > 64 {
+		return nil, nil
+	}
+	seen[v] = true
+	switch x := v.(type) {
+	case *ssa.UnOp:
+		if x.Op.String() == "*" {
+			return FieldOf(x.X)
+		}
+	case *ssa.Call:
+		sc := x.Call.StaticCallee()
+		if sc == nil || sc.Blocks == nil || len(sc.Params) == 0 {
+			return nil, nil
+		}
+		var rn *types.Named
+		var rf *types.Var
+		for _, b := range sc.Blocks {
+			ret, ok := b.Instrs[len(b.Instrs)-1].(*ssa.Return)
+			if !ok || len(ret.Results) != 1 {
+				continue
+			}
+			ld, ok := ret.Results[0].(*ssa.UnOp)
+			if !ok {
+				return nil, nil
+			}
+			n, f := FieldOf(ld.X)
+			if n == nil || (rf != nil && rf != f) {
+				return nil, nil
+			}
+			rn, rf = n, f
+		}
+		return rn, rf
+	case *ssa.Phi:
+		for _, e := range x.Edges {
+			if n, f := mapFieldOrigin(e, seen); n != nil {
+				return n, f
+			}
+		}
+	}
+	return nil, nil
+}
